@@ -12,6 +12,7 @@ package ipfshttp
 //@ ghost var lastLs api.IPFSPinStatus
 //@ ghost var postN int
 //@ ghost var postOK int
+//@ ghost var lastPostErr error
 
 //@ func (ipfs *Connector) updateInformerMetric
 //@   opts trusted
@@ -24,9 +25,14 @@ package ipfshttp
 //@   ensures err == nil ==> res != nil
 //@   modifies nothing
 
-// assumed (not verified): status line / error document decoding
+// status line / error document decoding: a non-200 answer is an error; when the daemon's error document could be decoded
+// the error is an ipfsError VALUE carrying it (Unpin recognises "not pinned" by that dynamic type) together with the body
 //@ func checkResponse
-//@   opts trusted
+//@   property C16
+//@   requires arg_res != nil
+//@   ensures [ok-status-is-no-error] arg_res.StatusCode == 200 ==> err == nil
+//@   ensures [other-status-is-an-error] arg_res.StatusCode != 200 ==> err != nil
+//@   ensures [error-document-is-a-typed-error] err != nil && !isnil(res1) ==> exists e ipfsError :: err == as(e, "error")
 //@   modifies nothing
 
 // "reports daemon and transport failures as errors": callers tell a transport failure (error, NO body) from an error
@@ -37,6 +43,8 @@ package ipfshttp
 //@   counts postOK when err == nil
 //@   ensures [body-with-an-error-is-the-daemons-error-body] err != nil && !isnil(res1) ==> same(res1, errBody)
 //@   ensures [success-has-the-body-read] err == nil ==> same(res1, body)
+//@   ensures [daemon-error-is-a-typed-error] err != nil && !isnil(res1) ==> exists e ipfsError :: err == as(e, "error")
+//@   records lastPostErr = err
 //@   modifies nothing
 
 // "requests nothing when the CID is already pinned as asked": the daemon is asked about the kind of pin the DEPTH calls
@@ -48,7 +56,7 @@ package ipfshttp
 //@   ensures err != nil ==> res == api.IPFSPinStatusError
 //@   ensures postN == old(postN) + 1
 //@   records lastLs = res
-//@   modifies postN, postOK
+//@   modifies postN, postOK, lastPostErr
 
 // "success only if the daemon said so": 200 + clean end of the progress stream (see pinProgress body)
 // lastDecodeErr: what the progress decoder last returned
@@ -71,7 +79,7 @@ package ipfshttp
 //@   ensures err == nil ==> postOK == old(postOK) + 1
 //@   ensures postN == old(postN) + 1
 //@   counts pinUpdateOK when err == nil
-//@   modifies postN, postOK
+//@   modifies postN, postOK, lastPostErr
 
 //@ spec func pinnedAs(s api.IPFSPinStatus, d api.PinDepth) bool = (d < 0 && s == api.IPFSPinStatusRecursive) || (d == 0 && s == api.IPFSPinStatusDirect) || (d > 0 && s == api.IPFSPinStatusRecursive)
 
@@ -85,7 +93,7 @@ package ipfshttp
 //@   ensures [ls-failure-is-an-error] postN == old(postN) + 1 && pinStatus == api.IPFSPinStatusError && pinAddOK == old(pinAddOK) && pinUpdateOK == old(pinUpdateOK) ==> err != nil || pinnedAs(pinStatus, pin.MaxDepth)
 //@   loop 1 (range pin.Origins[0:bound])
 //@     invariant pinAddOK == old(pinAddOK) && pinUpdateOK == old(pinUpdateOK) && postN == old(postN) + 1
-//@   modifies pinAddOK, pinUpdateOK, lastLs, postN, postOK, heap(api.Pin), lastDecodeErr, heap(ipfsPinsResp)
+//@   modifies pinAddOK, pinUpdateOK, lastLs, postN, postOK, lastPostErr, heap(api.Pin), lastDecodeErr, heap(ipfsPinsResp)
 
 // "gives up with an error when a pin makes no progress for the configured time": the watchdog goroutine of Pin.
 // The time of last progress moves only when the number of fetched nodes strictly grows, and that number never shrinks.
@@ -101,8 +109,10 @@ package ipfshttp
 //@   property C16
 //@   ensures [disabled-sends-nothing] ipfs.config.UnpinDisable ==> err != nil && postN == old(postN)
 //@   ensures [one-request] !ipfs.config.UnpinDisable ==> postN == old(postN) + 1
-//@   ensures [success-or-not-pinned] err == nil ==> postOK == old(postOK) + 1 || (ok && (ipfsErr.Message == libfn("errors.errorString.Error", 0, dspinner.ErrNotPinned) || true))
-//@   modifies postN, postOK
+//@   ensures [success-or-not-pinned] err == nil ==> postOK == old(postOK) + 1 || (ok && (ipfsErr.Message == dspinner.ErrNotPinned.Error() || ipfsErr.Message == ipldpinner.ErrNotPinned.Error()))
+//@   ensures [not-pinned-is-success] postN == old(postN) + 1 && (exists e ipfsError :: lastPostErr == as(e, "error") && (e.Message == dspinner.ErrNotPinned.Error() || e.Message == ipldpinner.ErrNotPinned.Error())) ==> err == nil
+//@   ensures [other-failures-are-reported] postN == old(postN) + 1 && lastPostErr != nil && !(exists e ipfsError :: lastPostErr == as(e, "error") && (e.Message == dspinner.ErrNotPinned.Error() || e.Message == ipldpinner.ErrNotPinned.Error())) ==> err != nil
+//@   modifies postN, postOK, lastPostErr
 
 // ---- C15: the section's saved form: every setting is written from the field of the same name ----
 //@ func (cfg *Config) toJSONConfig
